@@ -73,12 +73,12 @@ def run_vector(vec, emb, pool, eid, recv=None):
     elif op == "eraseTg":
         each = each_of(tiers, lambda t: t.new().eraseRegion(g(a["a"]), g(a["b"]), "truncate", a["shrink"]), pj)
     elif op == "spaceTg":
-        each = each_of(tiers, lambda t: t.new().insertSpace(g(a["s"]), g(a["d"]), a["mode"]), pj)
+        each = each_of(tiers, lambda t: t.new().insertSpace(g(a["s"]), emb.gd(a["d"]), a["mode"]), pj)
     elif op == "editTg":
-        each = each_of(tiers, lambda t: t.new().editTimestamps(g(a["o"]), a["mode"]), pj)
+        each = each_of(tiers, lambda t: t.new().editTimestamps(emb.gd(a["o"]), a["mode"]), pj)
     elif op == "alignTg":
         reft = recv.getTier(a["ref"]).new()
-        each = each_of(tiers, lambda t: t.new() if t.name == a["ref"] else t.new().dejitter(reft, g(a["D"])), pj)
+        each = each_of(tiers, lambda t: t.new() if t.name == a["ref"] else t.new().dejitter(reft, emb.gd(a["D"])), pj)
     elif op == "mergeTg":
         names = a["names"]
         if all(n in recv.tierNames for n in names):
@@ -114,9 +114,9 @@ def run_vector(vec, emb, pool, eid, recv=None):
             elif op == "eraseTg":
                 ret = recv.eraseRegion(g(a["a"]), g(a["b"]), a["shrink"])
             elif op == "spaceTg":
-                ret = recv.insertSpace(g(a["s"]), g(a["d"]), a["mode"])
+                ret = recv.insertSpace(g(a["s"]), emb.gd(a["d"]), a["mode"])
             elif op == "editTg":
-                ret = recv.editTimestamps(g(a["o"]), a["mode"])
+                ret = recv.editTimestamps(emb.gd(a["o"]), a["mode"])
             elif op == "appendTg":
                 ret = recv.appendTextgrid(argtg, a["only"])
             elif op == "mergeTg":
@@ -126,7 +126,7 @@ def run_vector(vec, emb, pool, eid, recv=None):
             elif op == "alignTg":
                 from praatio import praatio_scripts
                 # the function edits the textgrid it is given: hand it a copy, so that the event shows input and output
-                ret = praatio_scripts.alignBoundariesAcrossTiers(recv.new(), a["ref"], g(a["D"]))
+                ret = praatio_scripts.alignBoundariesAcrossTiers(recv.new(), a["ref"], emb.gd(a["D"]))
             elif op == "validateTg":
                 recv.validate(a["mode"])
             elif op == "saveTg":
